@@ -44,9 +44,9 @@ func init() {
 		id: "C10", title: "Interceptors are free of data races under every permitted concurrent use",
 		explanation: "Decides a lock discipline over the whole library: C1 every access to a field of the frozen guard table (≈100 fields of 25 lock-bearing types, confirmed by reading; DESIGN.md App. A) on an object that may be shared happens with the guarding mutex held — exclusively for writes, including writes through deep fields (map elements, pointees, mutating method calls) — using per-function must-hold locksets, entry locksets propagated from static call sites, synchronous-literal inheritance and pruning of infeasible !ok branches of typed containers; " +
 			"C2 state declared goroutine-confined is only accessed in functions reachable (call graph) from its owner goroutine's entry; C3 fields used with sync/atomic are only used with sync/atomic; C4 every other field of a lock-bearing type is never stored to on a shared object outside constructors/option closures (setup-time setters listed); " +
-			"C5 the held→acquired lock graph is acyclic, no mutex is re-acquired while held on the same object, and no WaitGroup.Wait/blocking channel operation happens under a lock its counterpart can need; D4 the close of each lifecycle channel and the isClosed/Add/go start sequence run under the same mutex.",
+			"C5 the held→acquired lock graph is acyclic, no mutex is re-acquired while held on the same object, and no WaitGroup.Wait/blocking channel operation happens under a lock its counterpart can need; D4 the close of each lifecycle channel and the isClosed/Add/go start sequence run under the same mutex; H3 every plain send on a channel that a Close method closes is made on the not-closed branch of a closed test while a lock is read-held that the closing site holds exclusively (Close racing with traffic cannot send on a closed channel).",
 		notDecided:  "races on memory the table does not name (fields of pion/rtp, pion/rtcp, x/time/rate objects; the Attributes map handed to packetdump's logger goroutine), lost updates that are not data races, liveness, stalls while a private lock is held across a downstream Write (noted, not a violation)",
-		sels:        []sel{s("C1"), s("C2"), s("C3"), s("C4"), s("C5"), s("C6"), s("D4")},
+		sels:        []sel{s("C1"), s("C2"), s("C3"), s("C4"), s("C5"), s("C6"), s("D4"), s("H3")},
 		assumptions: append([]string{"locks are identified by (struct type, field): two instances of one type are not distinguished", "the guard table and confinement table are hand-confirmed; every row must resolve to at least one access or the check fails", "exported methods are entry points with an empty lockset"}, stdAssume...),
 	})
 	def(&propDef{
